@@ -175,8 +175,12 @@ def run_with_edits(pcode: str, edits: list[tuple[int, list]], total: int, horizo
             return
         mm = run.engine.method_manager
         before = state_dict(mm.get_method_state())
+        # lines whose flags are legitimately cleared again: an Alarm re-arms, a macro body is reset by the next call
+        rep = ("AlarmNode", "MacroNode")
+        resettable = sorted(n.id for n in run.engine.interpreter._program.get_all_nodes()
+                            if type(n).__name__ in rep or any(type(q).__name__ in rep for q in n.parents))
         res = run.cancel(item.id) if kind == "cancel" else run.force(item.id)
-        req_info.append({"kind": kind, "item": item.name, "res": res, "tick": t, "before": before,
+        req_info.append({"kind": kind, "item": item.name, "res": res, "tick": t, "before": before, "resettable": resettable,
                          "after": state_dict(run.engine.method_manager.get_method_state()), "next": None,
                          "detached": bool(info and any(e["res"] == "ok" for e in info))})
     per_tick_marks: list[list[str]] = []
@@ -200,6 +204,9 @@ def run_with_edits(pcode: str, edits: list[tuple[int, list]], total: int, horizo
                 t += 1
         for (at, script) in sorted(edits, key=lambda e: e[0]):
             tick_to(at)
+            while requests and requests[0][0] <= t:      # a request and an edit before the same tick: request first
+                _, kind, sel = requests.pop(0)
+                do_request(kind, sel)
             mm = run.engine.method_manager
             before = mm.get_method_state()
             cur = [(ln.id, ln.content) for ln in mm._method.lines]
@@ -219,6 +226,10 @@ def run_with_edits(pcode: str, edits: list[tuple[int, list]], total: int, horizo
                              run.engine.has_error_state())
             m = run.Mdl.Method(lines=[run.Mdl.MethodLine(id=i, content=c) for i, c in new], version=0)
             res = run.edit(m)
+            if res == "ok":
+                for r in req_info:          # no "one tick after the request" across an accepted edit
+                    if r["next"] is None:
+                        r["next"] = False
             after = run.engine.method_manager.get_method_state()
             rl_after = runlog_items(run)
             status_after = (str(run.snapshot()["raw_tags"].get("Method Status")), str(run.snapshot()["raw_tags"].get("System State")),
@@ -262,10 +273,10 @@ def oracle(case) -> list[Failure]:  # noqa: C901
             continue
         was = r["before"]["started"] + r["before"]["executed"] + r["before"]["failed"]
         for when, st in (("right after", r["after"]), ("one tick after", r["next"])):
-            if st is None:
+            if not st:
                 continue
             now = st["started"] + st["executed"] + st["failed"]
-            lost = [i for i in was if i not in now]
+            lost = [i for i in was if i not in now and (when == "right after" or i not in r["resettable"])]
             if lost:
                 fails.append(Failure(f"method-state-lost-after-{r['kind']}", case,
                                      f"{r['kind']} of {r['item']!r} at tick {r['tick']}: lines {lost} were reported "
